@@ -105,6 +105,9 @@ func cmdCheck(args []string) int {
 			}
 		}()
 		pc.Run(c)
+		if *tier == "thorough" && rp == nil {
+			thoroughExtras(c, pc)
+		}
 	}()
 	return c.Finish(start, pc.Explanation, pc.Assumptions, rp)
 }
